@@ -131,11 +131,16 @@ pub fn filter_file_rule(
   let mut ret = smallvec![grep.clone()];
   if let Some(injected) = lang.injectable_sg_langs() {
     let docs = grep.inner.get_injections(|s| SgLang::from_str(s).ok());
-    let inj = injected.filter_map(|l| {
-      let doc = docs.iter().find(|d| *d.lang() == l)?;
-      let grep = AstGrep { inner: doc.clone() };
+    // the host yields one document per language LABEL (`<script>` and `<script lang="javascript">` are two
+    // JavaScript documents): every document of an injectable language is scanned
+    let injected: Vec<SgLang> = injected.collect();
+    let inj = docs.iter().filter_map(|doc| {
+      let l = *doc.lang();
+      if !injected.contains(&l) {
+        return None;
+      }
       collect_file_stats(path, l, configs, trace).ok()?;
-      Some(grep)
+      Some(AstGrep { inner: doc.clone() })
     });
     ret.extend(inj)
   }
